@@ -118,6 +118,7 @@ type StubConsensus struct {
 	Updates []types.BlockNo
 	Last    *types.Block // block of the most recent Update
 	Veto    func(rootNo types.BlockNo) bool
+	CDB     consensus.ChainDB
 }
 
 func (s *StubConsensus) IsTransactionValid(tx *types.Tx) bool                   { return true }
@@ -148,7 +149,16 @@ func (s *StubConsensus) Info() string                                           
 func (s *StubConsensus) GetType() consensus.ConsensusType                       { return consensus.ConsensusSBP }
 func (s *StubConsensus) NeedNotify() bool                                       { return true }
 func (s *StubConsensus) HasWAL() bool                                           { return false }
-func (s *StubConsensus) IsConnectedBlock(block *types.Block) bool               { return false }
+
+// IsConnectedBlock is what the DPoS and SBP implementations do: a block that is already stored
+// (connected or not) is not processed again.
+func (s *StubConsensus) IsConnectedBlock(block *types.Block) bool {
+	if s.CDB == nil {
+		return false
+	}
+	_, err := s.CDB.GetBlock(block.BlockHash())
+	return err == nil
+}
 func (s *StubConsensus) IsForkEnable() bool                                     { return true }
 func (s *StubConsensus) MakeConfChangeProposal(req *types.MembershipChange) (*consensus.ConfChangePropose, error) {
 	return nil, consensus.ErrNotSupportedMethod
@@ -273,6 +283,7 @@ func Open(spec *Spec, dir string) (*Node, error) {
 		n.loader = dpos.VerifLoader()
 		cs.SetChainConsensus(d)
 	} else {
+		n.CC.CDB = cs.CDB()
 		cs.SetChainConsensus(n.CC)
 	}
 	return n, nil
